@@ -374,6 +374,10 @@ class ProcProxyThread(threading.Thread):
             self.stderr = open(self.errread, "rb", -1, closefd=False)
             if universal_newlines:
                 self.stderr = io.TextIOWrapper(self.stderr)
+        elif isinstance(self.stderr, int):
+            # Raw fd or flag (e.g. subprocess.STDOUT from e>o) — already
+            # resolved into errwrite, there is no readable pipe to expose.
+            self.stderr = None
 
         # Set some signal handles, if we can. Must come before process
         # is started to prevent deadlock on windows
